@@ -217,7 +217,7 @@ class HistExhaustive(_HistStream):
                 yield dict(case, prefix=case['prefix'][:i] + case['prefix'][i + 1:])
 
 
-EXTRA = (['suf:' + l for l in _log.VERB] + ['c:O:r', 'c:O:x', 'c:O:y'] + ['c:%s:y' % v for v in _log.VERB])
+EXTRA = (['su:E', 'sl:E', 'sl:E', 'c:E:r', 'c:E:x'] + ['suf:' + l for l in _log.VERB] + ['c:O:r', 'c:O:x', 'c:O:y'] + ['c:%s:y' % v for v in _log.VERB])
 SLOW = (['c:%s:r:%s' % (v, f) for v in ('N', 'O', 'W', 'D') for f in 'meca'] + ['c:D:x:m', 'c:I:x:e', 'c:C:x:c', 'c:D:y:m'] +
         ['c:%s:r:a' % v for v in ('N', 'O', 'C', 'I', 'D')])
 
@@ -240,6 +240,9 @@ class HistRandom(_HistStream):
             {'start': 0, 'prefix': ['c:O:r:a', 'su:W', 'c:O:r:a', 'c:D:r:a', 'sl:D', 'c:N:r:a', 'dis', 'c:O:r:a', 'en', 'suf:I', 'c:C:r:a'],
              'depth': 0, 'sig': 3},
             {'start': 1, 'prefix': ['c:O:r:a', 'c:W:r:a', 'sl:C', 'c:O:r:a'], 'depth': 0, 'sig': 1},
+            # seeded change C20-4: the level in force before the call need not be one of the four documented names
+            {'start': 0, 'prefix': ['su:E', 'c:D:r', 'c:I:x', 'sl:W', 'c:E:r', 'sl:E', 'c:C:x', 'c:O:r'], 'depth': 0, 'sig': 2},
+            {'start': 1, 'prefix': ['sl:E', 'c:D:r', 'c:W:x', 'c:N:r'], 'depth': 0, 'sig': 0},
         ]
 
     def generate(self, rng, tier):
